@@ -374,6 +374,9 @@ func (c *censusT) dump(id string) {
 
 func isCensus() bool { return os.Getenv("VERIF_CENSUS") != "" }
 
+// storeOverride lets a property adjust the data generator (list lengths etc.)
+var storeOverride func(*world.StoreOptions)
+
 func onlySig() string { return os.Getenv("VERIF_ONLY_SIG") }
 
 func genExecCase(t *rapid.T, rec *ev.Recorder, opType ast.Operation) (*ExecCase, *world.Model) {
@@ -398,6 +401,9 @@ func genExecCaseOpt(t *rapid.T, rec *ev.Recorder, opType ast.Operation, saturate
 	w := m.Build()
 	sopt := world.DefaultStoreOptions()
 	sopt.Saturated = saturated
+	if storeOverride != nil {
+		storeOverride(&sopt)
+	}
 	w.Store = world.GenerateStore(t, m, sopt)
 	union, err := w.UnionSchema()
 	if err != nil {
